@@ -60,3 +60,15 @@ Definition exec (L : Z) (h : list wevent) : window := fold_left (step L) h [].
 
 (* what a Samples() call at time t returns after history h *)
 Definition read_after (L : Z) (h : list wevent) (t : Z) : list Z := snd (samples t (exec L h)).
+
+(* A cleaner tick split in two critical sections (the shape class cleaner-race of the
+   harness looks for): scan under the read lock, drop of the counted prefix under the
+   write lock taken afterwards; another goroutine may run in between.
+   (Go's drop(n) panics when n exceeds the length; skipn returns the empty list.) *)
+Definition scan (now : Z) (w : window) : nat := newstart now w.
+Definition drop_n (n : nat) (w : window) : window := skipn n w.
+(* scan; [export at time t by another goroutine]; drop *)
+Definition split_tick_with_export (now t : Z) (w : window) : window :=
+  let n := scan now w in
+  let w1 := fst (samples t w) in
+  drop_n n w1.
